@@ -219,6 +219,29 @@ Section ComVel.
   Definition comvel_init : Z -> list S := fun _ => vconst 6 (sofZ 0).
 End ComVel.
 
+(* ---- decidable well-formedness of the model arrays (Proof/Jac.v wf_tree / wf_joints);
+   evaluated by the correspondence check on every MjModel it generates --------------------- *)
+Section WfCheck.
+  Variables (ps dn da dp db jntnum jntadr jnt_type : list Z).
+  Definition wf_treeb : bool :=
+    let nb := Z.of_nat (length ps) in
+    let nv := Z.of_nat (length dp) in
+    forallb (fun b => (b =? 0) || ((0 <=? zg ps b) && (zg ps b <? b))) (zseq (length ps))
+    && (zg dn 0 =? 0)
+    && forallb (fun b => 0 <=? zg dn b) (zseq (length ps))
+    && forallb (fun d => let b := zg db d in
+                         (0 <=? b) && (b <? nb) && (zg da b <=? d) && (d <? zg da b + zg dn b)) (zseq (length dp))
+    && forallb (fun b => forallb (fun j => let d := zg da b + j in
+                                           (0 <=? d) && (d <? nv) && (zg db d =? b))
+                                 (zseq (Z.to_nat (zg dn b)))) (zseq (length ps))
+    && forallb (fun d => (-1 <=? zg dp d) && (zg dp d <? d)) (zseq (length dp))
+    && forallb (fun d => zg dp d =? (if zg da (zg db d) <? d then d - 1
+                                     else last_dof_up ps dn da (length ps) (zg ps (zg db d)))) (zseq (length dp)).
+  Definition wf_jointsb : bool :=
+    forallb (fun b => (0 <=? zg jntnum b) && (Z.of_nat (body_ndof jntnum jntadr jnt_type b) =? zg dn b))
+            (zseq (length ps)).
+End WfCheck.
+
 (* ================================================================== constraint.py +-1 rows *)
 Section EfcRows.
   Context {S : Type} `{Scalar S}.
